@@ -118,7 +118,8 @@ theorem C11_arith_no_panic (a b : Value) :
     split <;> first | exact durDiv_noPanic _ _ | exact binaryOp_noPanic _ _ _
 
 theorem display_noPanic (v : Value) : NoPanic v.display := by
-  cases v <;> (intro p; simp [Value.display])
+  unfold Value.display Value.displayFull
+  leaves
 
 theorem toUsize_noPanic (v : Value) : NoPanic v.toUsize := by
   cases v <;> try (unfold Value.toUsize; leaves; done)
